@@ -702,7 +702,11 @@ def h5_position_table(ctx, rid='H5'):
     enter = lambda path: path.startswith('token::ui_token::') or path.startswith('<token::ui_token::')
     n = 0
     bad = {}
+    visited = {}
+    ctx._h5_visited = visited
+    ctx._h5_ok = False
     kmax = 4 if (ctx.tier == 'thorough' and ctx.cfg_name == 'dev') else 3
+    ctx._h5_kmax = kmax
     for k in range(0, kmax + 1):
         for ws in itertools.product((1, 2, 3, 4), repeat=k):
             line = ('str', ['c%dw%d' % (j + 1, w) for j, w in enumerate(ws)])
@@ -714,8 +718,12 @@ def h5_position_table(ctx, rid='H5'):
                 if m.run(0) != 'return':
                     raise Unknown('UiTokenCollection::new did not return')
                 coll = m.deref_value(m.load(0))
+                for pth, blocks in m.shared.get('visited', {}).items():
+                    visited.setdefault(pth, set()).update(blocks)
                 starts = [sum(ws[:j]) for j in range(k + 1)]       # byte offset of character j; the last one is the byte length
-                for j, off in enumerate(starts):
+                inside = [(None, off) for off in range(sum(ws)) if off not in starts]
+                # offsets inside a character are not offsets of a match; they are walked for unwinding only
+                for j, off in list(enumerate(starts)) + inside:
                     m2 = Machine(gp, model, max_steps=20000)
                     m2.enter = enter
                     m2.env['coll'] = coll
@@ -723,6 +731,10 @@ def h5_position_table(ctx, rid='H5'):
                     m2.env[2] = off
                     if m2.run(0) != 'return':
                         raise Unknown('get_position did not return')
+                    for pth, blocks in m2.shared.get('visited', {}).items():
+                        visited.setdefault(pth, set()).update(blocks)
+                    if j is None:
+                        continue
                     got = m2.deref_value(m2.load(0))
                     n += 1
                     if isinstance(got, int) and int(got) == j:
